@@ -40,6 +40,7 @@ type Config struct {
 	FPContract bool              `json:"fp_contract"`
 	SortMapIter bool             `json:"sort_map_iter"`
 	TimeoutMS  int               `json:"solver_timeout_ms"`
+	SecondTimeoutS int           `json:"second_timeout_s"`
 	SkipInit   map[string]bool   `json:"skip_init"`
 	Params     map[string]int64  `json:"params"`
 	Reach      []string          `json:"reach"` // labels that must be reached (vacuity witnesses)
@@ -49,6 +50,7 @@ type Config struct {
 	DeadlockOK bool              `json:"deadlock_ok"`
 	PersistInit []string         `json:"persist_init"` // repo packages whose globals are initialised once per worker (read-only after init)
 	persist    map[string]bool
+	icpt       map[string]*Intercept
 	Doc        string            `json:"doc"`
 	Bounds     string            `json:"bounds"`
 }
@@ -114,6 +116,9 @@ func (c *Config) withTier(tier string) *Config {
 	out.persist = map[string]bool{}
 	for _, p := range out.PersistInit {
 		out.persist[repoMod+"/"+p] = true
+	}
+	if out.SecondTimeoutS == 0 {
+		out.SecondTimeoutS = 120
 	}
 	if out.SkipInit == nil {
 		out.SkipInit = map[string]bool{}
@@ -248,11 +253,11 @@ func (w *World) findFunc(pkgPath, name string) *ssa.Function {
 }
 
 func (w *World) setIntercepts(c *Config) error {
-	w.intercepts = map[string]*Intercept{}
+	c.icpt = map[string]*Intercept{}
 	for callee, spec := range c.Intercepts {
 		switch {
 		case spec == "noop" || spec == "havoc":
-			w.intercepts[callee] = &Intercept{Kind: spec}
+			c.icpt[callee] = &Intercept{Kind: spec}
 		case strings.HasPrefix(spec, "model:"):
 			ref := strings.TrimPrefix(spec, "model:")
 			i := strings.LastIndex(ref, ".")
@@ -267,7 +272,7 @@ func (w *World) setIntercepts(c *Config) error {
 			if f == nil {
 				return fmt.Errorf("model function %s.%s not found", pkg, fn)
 			}
-			w.intercepts[callee] = &Intercept{Kind: "model", Fn: f}
+			c.icpt[callee] = &Intercept{Kind: "model", Fn: f}
 		default:
 			return fmt.Errorf("bad intercept spec %q for %s", spec, callee)
 		}
